@@ -78,6 +78,12 @@ func parseVersion1(reader *bufio.Reader) (*Header, error) {
 		return nil, ErrCantReadProtocolVersionAndCommand
 	}
 
+	// TCP4/TCP6 lines have exactly 6 fields (only UNKNOWN may carry anything else)
+	if len(tokens) > 6 && tokens[1] != "UNKNOWN" {
+		state.ProxyErrInvalidHeader.Inc(1)
+		return nil, ErrCantReadProtocolVersionAndCommand
+	}
+
 	header := initVersion1()
 
 	// Read address family and protocol
@@ -149,6 +155,11 @@ func (header *Header) writeVersion1(w io.Writer) (int64, error) {
 func parseV1PortNumber(portStr string) (uint16, error) {
 	var port uint16
 
+	// decimal digits only, heading zeroes are not permitted
+	if len(portStr) > 1 && (portStr[0] == '0' || portStr[0] == '+' || portStr[0] == '-') {
+		return 0, ErrInvalidPortNumber
+	}
+
 	pval, err := strconv.Atoi(portStr)
 	if err == nil {
 		if pval < 0 || pval > 65535 {
@@ -161,6 +172,10 @@ func parseV1PortNumber(portStr string) (uint16, error) {
 }
 
 func parseV1IPAddress(protocol AddressFamilyAndProtocol, addrStr string) (addr net.IP, err error) {
+	// a TCP4 address is a dotted quad, never an IPv6 notation of an IPv4 address
+	if protocol == TCPv4 && strings.Contains(addrStr, ":") {
+		return nil, ErrInvalidAddress
+	}
 	addr = net.ParseIP(addrStr)
 	tryV4 := addr.To4()
 	// the family of a TCP6 address is decided by its notation: an IPv4-mapped IPv6
